@@ -6,7 +6,8 @@ from ..leandrv import Driver
 MODULE = 'Bluebell.Props.C15'
 THEOREMS = ['Bluebell.C15_name_format', 'Bluebell.C15_counter_advances', 'Bluebell.C15_uris_consistent', 'Bluebell.C15_title_is_heading', 'Bluebell.C15_examples']
 URIS = ['/akn/za/act/2009/10', '/akn/za-cpt/act/by-law/2010/public-places', '/akn/na/judgment/nahc/2020/5', '/akn/za/act/2009/10/!main',
-        '/akn/ug/doc/report/2021-03-04/annual']
+        '/akn/ug/doc/report/2021-03-04/annual', '/akn/za-cpt/act/by-law/2014/liquor/afr@2016-03-04', '/akn/za/act/2009/10/eng@2012-06-01',
+        '/akn/ke/act/ln/2017/3/swa', '/akn/za/act/2009/10/fra@', '/akn/za/act/2009/10/eng:2020-01-01', '/akn/za/act/2009/10/eng@2012-06-01/!main']
 
 
 def forest_text(rng, depth=0, ind=0, w=None):
